@@ -1,6 +1,7 @@
 import Tengo.Props.C12
 import Tengo.Props.C12VM
 import Tengo.Props.C12Univ
+import Tengo.Props.C12Source
 /-! C12: the theorems about the model of `RemoveDuplicates` / the gob round trip (`C12`) and the whole-VM
 theorems about a passed renumbering check (`C12VM`: the real `RemoveDuplicates` output, validated per
 program by the driver line `renum`, runs like the original on the VM model for every input), as one
